@@ -256,6 +256,44 @@ func ruleSizeParam(c *Ctx) {
 				}
 			}
 		})
+		if sizeVal == nil {
+			// the comparison may sit in a pure predicate helper (c.overSizeLimit(size)): the operand is then the
+			// argument bound to the compared parameter
+			allInstrs(f, func(in ssa.Instruction) {
+				call, ok := in.(*ssa.Call)
+				if !ok || sizeVal != nil {
+					return
+				}
+				g := staticCallee(&call.Call)
+				if !c.F.isPurePredicate(g, 0) {
+					return
+				}
+				allInstrs(g, func(gi ssa.Instruction) {
+					bo, ok := gi.(*ssa.BinOp)
+					if !ok {
+						return
+					}
+					var other ssa.Value
+					if describe(bo.Y) == "Server.MaxMessageBytes" {
+						other = bo.X
+					} else if describe(bo.X) == "Server.MaxMessageBytes" {
+						other = bo.Y
+					}
+					if other == nil {
+						return
+					}
+					if p, isP := stripConv(other).(*ssa.Parameter); isP {
+						for i, q := range g.Params {
+							if q == p && i < len(call.Call.Args) {
+								if _, _, ok := parseUintOrigin(call.Call.Args[i], 0); ok {
+									sizeDesc, sizeVal = describe(call.Call.Args[i]), call.Call.Args[i]
+								}
+							}
+						}
+					}
+				})
+			})
+		}
 		if sizeVal != nil {
 			pu, steps, _ := parseUintOrigin(sizeVal, 0)
 			base, _ := constInt(pu.Call.Args[1])
